@@ -205,6 +205,30 @@ def run_case(case: dict[str, Any]) -> dict[str, Any]:
             mgr = ZeroconfManager()
             pre = mgr.get_async_zeroconf().zeroconf
         host_list = [host_str(f, i) for i, (f, _, _) in enumerate(hosts)]
+        # earlier resolutions of the SAME hosts through the SAME manager, in other worlds (the device was off / known only to the OS resolver / ...),
+        # each run to completion and some time before the one that is judged: what they found must not matter now
+        marks = (0, 0, 0)
+        if case.get("history") and mgr is not None:
+            for world_k, gap in case["history"]:
+                for i, (form, _md, _os) in enumerate(hosts):
+                    md_k, os_k = world_k[i]
+                    world.answers.pop(f"dev{i}", None)
+                    sim.net.dns.pop(host_str(form, i), None)
+                    if form in NAMES and md_k != "-":
+                        world.answers[f"dev{i}"] = mdns_answer(md_k, i)
+                    if form not in LITERAL and os_k != "-":
+                        sim.net.dns[host_str(form, i)] = os_answer(os_k, i)
+                early = sim.call("resolve-earlier", lambda: hr.async_resolve_host(list(host_list), PORT, mgr))
+                sim.run(until=lambda: early.done, max_time=sim.clock + 100)
+                sim.run_for(gap)
+            for i, (form, md, os_) in enumerate(hosts):
+                world.answers.pop(f"dev{i}", None)
+                sim.net.dns.pop(host_str(form, i), None)
+                if form in NAMES and md != "-":
+                    world.answers[f"dev{i}"] = mdns_answer(md, i)
+                if form not in LITERAL and os_ != "-":
+                    sim.net.dns[host_str(form, i)] = os_answer(os_, i)
+            marks = (len(world.requests), len(sim.net.dns_calls), len(sim.net.connect_attempts))
         captured: list[Any] = []
         orig_csc = C.APIConnection._connect_socket_connect  # noqa: SLF001
         cli = None
@@ -274,9 +298,9 @@ def run_case(case: dict[str, Any]) -> dict[str, Any]:
             C.APIConnection._connect_socket_connect = orig_csc  # type: ignore[method-assign]  # noqa: SLF001
         out.update({
             "rec": rec, "captured": captured, "pre": None if pre is None else pre.idx,
-            "requests": list(world.requests), "dns_calls": list(sim.net.dns_calls), "dns_seqs": list(sim.net.dns_seqs),
+            "requests": list(world.requests)[marks[0]:], "dns_calls": list(sim.net.dns_calls)[marks[1]:], "dns_seqs": list(sim.net.dns_seqs)[marks[1]:],
             "instances": [(z.idx, z.origin, z.close_calls, z.used_after_close) for z in world.instances],
-            "tcp": [(a["address"], a["outcome"]) for a in sim.net.connect_attempts],
+            "tcp": [(a["address"], a["outcome"]) for a in sim.net.connect_attempts[marks[2]:]],
             "loop_exceptions": list(sim.loop_exceptions), "harness_errors": list(sim.harness_errors), "trace": sim.trace(60),
             "mlog": list(world.log),
         })
@@ -600,6 +624,18 @@ def shard(ctx: Ctx) -> None:
                                 continue  # only the client path has a resolve timeout
                             case = {"hosts": [second, h], "provision": prov, "entry": entry, "ending": ending or ("resolve-timeout",)}
                             one(ctx, case, "cut-short")
+    # histories: the same hosts resolved before through the same manager, in another world
+    worlds = [("none", "gaierror"), ("none", "v4"), ("v4", "-"), ("both", "v4"), ("raise", "gaierror"), ("incomplete-both", "-"), ("none", "empty")]
+    for form in ("bare", "local", "local.", "sub.local"):
+        for prov in ("empty-manager", "supplied-async", "supplied-sync", "library-precreated"):
+            for earlier in worlds:
+                for now in worlds:
+                    for gap in (0.0, 2.0, 61.0):
+                        idx += 1
+                        if not ctx.mine(idx) or (not ctx.thorough and (idx // ctx.nshards) % 3):
+                            continue
+                        hist = [[[list(earlier)], gap]] if idx % 2 else [[[list(earlier)], 0.5], [[list(earlier)], gap]]
+                        one(ctx, {"hosts": [(form, now[0], now[1])], "provision": prov, "entry": "direct", "history": hist}, "after-earlier-resolutions")
     manager_sequences(ctx)
 
 
